@@ -290,6 +290,16 @@ def make_cells(tier):
             L.close(X1[0:3], [float(a) for a in p1], gname + ".exp_mixed: position vs exact flow", atol=1e-10 * sp, rtol=0, X0=X0.tolist(), u=u)
             L.close(X1[3:6], [float(a) for a in v1], gname + ".exp_mixed: velocity vs exact flow", atol=1e-10 * sv, rtol=0, X0=X0.tolist(), u=u)
             L.close(M1[0:3, 0:3], ref.mp_to_np(R1), gname + ".exp_mixed: attitude vs exact flow", atol=1e-9, rtol=0, X0=X0.tolist(), u=u)
+            # the same call on numeric (DM) operands
+            G = gi.G
+            with cy.quiet():
+                l = cy.lie.se23.elem(ca.DM([0, 0, 0] + [float(x) for x in u["a"]] + [float(x) for x in u["w"]]))
+                r = cy.lie.se23.elem(ca.DM([0, 0, 0, 0, 0, -float(u["g"]), 0, 0, 0]))
+                B = ca.sparsify(ca.SX([[0, 1], [0, 0]]))
+                Xn = G.exp_mixed(G.elem(ca.DM(X0)), l * float(u["dt"]), r * float(u["dt"]), B * float(u["dt"]))
+                X1n = cy.vec(cy.arr(ca.evalf(ca.densify(ca.SX(Xn.param)))))
+            L.close(gi.toM(X1n), M1, gname + ".exp_mixed called on numeric operands vs the symbolic function (matrix form)",
+                    atol=1e-11 * (1 + float(np.max(np.abs(M1)))), rtol=0, X0=X0.tolist(), u=u)
 
         cells.append(Cell("%s/exp_mixed" % gname, one, check_mixed, nontrivial, classify, quick=200, thorough=4000,
                           build=lambda gname=gname: mixed_fn(gname).build()))
